@@ -13,7 +13,7 @@ from __future__ import annotations
 import copy
 
 from mc import families
-from mc.common import Ctx, pmap, rotate
+from mc.common import Ctx, pmap, rotate, tag, pmap_tagged
 from mc.fd import AdmissionCounter, Budget, DerivationTree, NonTerminal, Terminal, Timeout, build, snap, time_limit
 from mc.refgrammar import Alt, Lit, NT, Opt, Plus, RefGrammar, Rep, Seq, Star, WordMatcher, viable
 
@@ -307,7 +307,7 @@ def run(ctx: Ctx) -> None:
     fam = family(ctx.tier)
     items = rotate([(r, 4 if ctx.quick else 6) for r in fam], ctx.seed)
     ctx.log(f"{len(items)} protocol grammars")
-    results = pmap(work, items, chunk=2)
+    results = pmap_tagged(work, items, chunk=2)
     states = transitions = outcomes = spec_errors = 0
     samples = []
     for r in results:
